@@ -86,12 +86,17 @@ def make_defaults(rng, n):
     out, meta = [], []
     for i in range(n):
         name = 'svc%d:' % i + ''.join(rng.choice(NAME_CH) for _ in range(rng.randint(1, 12)))
+        if rng.random() < 0.2:
+            name += rng.choice(['\U0001F512:open', 'é', ' x', '#h', 'Ж', ': y', "'s", '\U000E0041', '%(k)s', '{z}', '\u2028', '\x85'][:10])
         check = rng.choice(CHECKS)
         kind = rng.choice(['plain', 'plain', 'removal', 'renamed', 'changed'])
         desc = hostile_text(rng) if rng.random() < 0.85 else None
         reason = rng.choice([hostile_text(rng) or 'because', hostile_text(rng), '', None, '  ', 'because'])
         since = rng.choice(['N', '2025.1', 'Wallaby (13.0.0)', '1.0 # x', 'v: 2'])
-        scope = rng.choice([None, None, ['project'], ['system', 'project']])
+        scope = rng.choice([None, None, ['project'], ['system', 'project'],
+                            # scope types are free-form unique strings: many / long ones make a long comment line
+                            ['system', 'domain', 'project', 'organization', 'department', 'region', 'availability-zone', 'tenant-group'],
+                            ['scope-' + 'x' * 70], ['a: b', '#c', '"q"'.replace('"', '')]])
         kw = {'scope_types': scope}
         if kind == 'removal':
             kw.update(deprecated_for_removal=True, deprecated_reason=reason if reason is not None else '', deprecated_since=since)
